@@ -44,5 +44,25 @@ theorem fifo_next :
 /-- no frame is longer than 7 bytes: 8 bytes left are as good as any larger number -/
 theorem fifo_payload_le : ∀ n, n < 256 → numPayloadBytes (hdr (BitVec.ofNat 8 n)) ≤ 6 := by decide +kernel
 
+theorem fifo_payload_le_byte (b : Byte) : numPayloadBytes (hdr b) ≤ 6 := by
+  have h := fifo_payload_le b.toNat b.isLt
+  simpa using h
+
+/-- with 8 or more bytes left, `next` does not depend on how many: the table rows for 8 bytes left
+    stand for every longer buffer and every cursor position (in the model; the source's text has the
+    same shape, and the width of its cursor is exercised by stream `fifo-huge`) -/
+theorem fifo_next_far (buf : List Byte) (i : Nat) (b : Byte) (h : buf[i]? = some b) (hlen : i + 8 ≤ buf.length) :
+    next buf ⟨i⟩ =
+      (if frameType (hdr b) == .data && !hasData (hdr b) then (none, ⟨i + 2⟩)
+       else (some ⟨i, i + numPayloadBytes (hdr b) + 1⟩, ⟨i + numPayloadBytes (hdr b) + 1⟩)) := by
+  have hp := fifo_payload_le_byte b
+  unfold next
+  have h1 : ¬ (i ≥ buf.length) := by omega
+  simp only [h1, if_false, h]
+  split
+  · rfl
+  · have h2 : ¬ (i + numPayloadBytes (hdr b) + 1 > buf.length) := by omega
+    simp [h2]
+
 end Thm
 end Bma400
